@@ -15,29 +15,78 @@ Hypothesis OK : static_ok st.
 Lemma tlt_tle_trans' a b c : tlt a b = true -> tle b c = true -> tlt a c = true.
 Proof. apply tlt_tle_trans. Qed.
 
-Theorem later_candidates_are_later s j t m s' : reached st s -> apply st s (EvBegin j t m) = Ok s' ->
-  forall evs l, run st s' evs = Ok l ->
-  forall sr, In sr (s' :: l) ->
+(* core: stated for any later state sr that is good and whose progress is at least that of the state after the BEGIN *)
+Lemma later_core s j t m s' sr : Good st s -> apply st s (EvBegin j t m) = Ok s' -> Good st sr -> prog_le s' sr ->
   forall k d c, In (k, d) (indel st j) -> In c (cands (sr k)) -> tlt t (act c d) = true.
 Proof.
-  intros R Hb evs l Hrun sr Hsr k d c Hd Hc.
-  pose proof (C01_input_guard st OK s j t m s' R Hb k d Hd) as G0.
-  pose proof (reached_good st OK s R) as G. pose proof (good_step st OK _ _ _ G Hb) as G'.
-  assert (Gr : Good st sr) by (destruct Hsr as [<-|Hin]; [exact G'|eapply good_run; eauto]).
+  intros G Hb Gr M1 k d c Hd Hc.
+  pose proof (input_guard st s j t m s' G Hb k d Hd) as G0.
   assert (M0 : prog_le s s').
   { destruct G as [I _]. eapply (apply_prog_mono st (ok_depth st OK) (ok_trig_shape st OK) (ok_anc_shape st OK) (ok_dist_edge st OK) (ok_dist_tri st OK)); eauto. }
-  assert (M1 : prog_le s' sr).
-  { destruct Hsr as [<-|Hin]; [apply prog_le_refl|]. destruct G' as (I' & W' & _). eapply (progress_monotone st OK evs); eauto. }
   pose proof (prog_le_trans _ _ _ M0 M1 k) as Mk.
   destruct Gr as ([[HSr HLr] _] & _ & _). destruct (HLr k) as (_ & Bk & _). specialize (Bk c Hc).
   destruct G as ([[HS0 _] _] & _ & _).
   assert (L1 : length (prog (s k)) = length c) by (rewrite (proj1 (HS0 k)); symmetry; apply (HSr k); exact Hc).
   eapply tlt_tle_trans'; [exact G0|]. apply act_mono; [exact L1|]. eapply tle_trans; [exact Mk|exact Bk].
 Qed.
+Lemma prog_le_step s e s' : Good st s -> apply st s e = Ok s' -> prog_le s s'.
+Proof.
+  intros G H. destruct G as [I _]. eapply (apply_prog_mono st (ok_depth st OK) (ok_trig_shape st OK) (ok_anc_shape st OK) (ok_dist_edge st OK) (ok_dist_tri st OK)); eauto.
+Qed.
+
+Theorem later_candidates_good s j t m s' : Good st s -> apply st s (EvBegin j t m) = Ok s' ->
+  forall evs l, run st s' evs = Ok l ->
+  forall sr, In sr (s' :: l) ->
+  forall k d c, In (k, d) (indel st j) -> In c (cands (sr k)) -> tlt t (act c d) = true.
+Proof.
+  intros G Hb evs l Hrun sr Hsr.
+  pose proof (good_step st OK _ _ _ G Hb) as G'.
+  assert (Gr : Good st sr) by (destruct Hsr as [<-|Hin]; [exact G'|eapply good_run; eauto]).
+  assert (M1 : prog_le s' sr).
+  { destruct Hsr as [<-|Hin]; [apply prog_le_refl|]. destruct G' as (I' & W' & _). eapply (progress_monotone st OK evs); eauto. }
+  exact (later_core s j t m s' sr G Hb Gr M1).
+Qed.
+
+Theorem later_candidates_are_later s j t m s' : reached st s -> apply st s (EvBegin j t m) = Ok s' ->
+  forall evs l, run st s' evs = Ok l ->
+  forall sr, In sr (s' :: l) ->
+  forall k d c, In (k, d) (indel st j) -> In c (cands (sr k)) -> tlt t (act c d) = true.
+Proof. intros R. apply later_candidates_good. apply reached_good; assumption. Qed.
 
 (* the tiered output time of a DATA event, as notify_dependencies computes it *)
 Definition out_time (i:nat) (c:time) (ot:Z) : time := if ot =? thd c then c else world_time st i ot.
 
+Lemma later_out_core s j t m s' sr : Good st s -> apply st s (EvBegin j t m) = Ok s' -> Good st sr -> prog_le s' sr ->
+  forall k ot ports sr', apply st sr (EvData k ot ports) = Ok sr' ->
+  forall d, In (k, d) (indel st j) ->
+  exists c, cur (sr k) = Some c /\ length c = depth st k /\ tlt t (act (out_time k c ot) d) = true.
+Proof.
+  intros G Hb Gr M1 k ot ports sr' Ha d Hd.
+  simpl in Ha. destruct (pc (sr k)) eqn:Epc; try discriminate. destruct (cur (sr k)) as [c|] eqn:Ec; try discriminate.
+  destruct (ot <? thd (last (sr k))) eqn:Eo; [discriminate|]. apply Z.ltb_ge in Eo.
+  exists c. split; [reflexivity|].
+  assert (Hc : In c (cands (sr k))) by (unfold cands; rewrite Ec; left; reflexivity).
+  pose proof (later_core s j t m s' sr G Hb Gr M1 k d c Hd Hc) as T.
+  destruct Gr as ([[HSr _] HID] & _ & _). rewrite (HID k c Epc Ec) in Eo.
+  assert (Lc : length c = depth st k) by (apply (HSr k); exact Hc).
+  split; [exact Lc|].
+  unfold out_time. destruct (ot =? thd c) eqn:Eq; [exact T|]. apply Z.eqb_neq in Eq.
+  eapply tlt_tle_trans'; [exact T|]. apply act_mono; [rewrite Lc; symmetry; apply length_world; apply (ok_depth st OK)|].
+  apply world_time_gt; [apply (ok_depth st OK)|exact Lc|lia].
+Qed.
+Theorem later_outputs_good s j t m s' : Good st s -> apply st s (EvBegin j t m) = Ok s' ->
+  forall evs l, run st s' evs = Ok l ->
+  forall sr k ot ports sr', In sr (s' :: l) -> apply st sr (EvData k ot ports) = Ok sr' ->
+  forall d, In (k, d) (indel st j) ->
+  exists c, cur (sr k) = Some c /\ tlt t (act (out_time k c ot) d) = true.
+Proof.
+  intros G Hb evs l Hrun sr k ot ports sr' Hsr Ha d Hd.
+  pose proof (good_step st OK _ _ _ G Hb) as G'.
+  assert (Gr : Good st sr) by (destruct Hsr as [<-|Hin]; [exact G'|eapply good_run; eauto]).
+  assert (M1 : prog_le s' sr).
+  { destruct Hsr as [<-|Hin]; [apply prog_le_refl|]. destruct G' as (I' & W' & _). eapply (progress_monotone st OK evs); eauto. }
+  destruct (later_out_core s j t m s' sr G Hb Gr M1 k ot ports sr' Ha d Hd) as (c & A & _ & B). exists c; auto.
+Qed.
 Theorem later_outputs_are_later s j t m s' : reached st s -> apply st s (EvBegin j t m) = Ok s' ->
   forall evs l, run st s' evs = Ok l ->
   forall r sr k ot ports sr', nth_error evs r = Some (EvData k ot ports) -> nth_error (s' :: l) r = Some sr -> apply st sr (EvData k ot ports) = Ok sr' ->
@@ -45,18 +94,6 @@ Theorem later_outputs_are_later s j t m s' : reached st s -> apply st s (EvBegin
   exists c, cur (sr k) = Some c /\ tlt t (act (out_time k c ot) d) = true.
 Proof.
   intros R Hb evs l Hrun r sr k ot ports sr' He Hs Ha d Hd.
-  assert (Hin : In sr (s' :: l)) by (eapply nth_error_In; eauto).
-  pose proof (reached_good st OK s R) as G. pose proof (good_step st OK _ _ _ G Hb) as G'.
-  assert (Gr : Good st sr) by (destruct Hin as [<-|Hin]; [exact G'|eapply good_run; eauto]).
-  simpl in Ha. destruct (pc (sr k)) eqn:Epc; try discriminate. destruct (cur (sr k)) as [c|] eqn:Ec; try discriminate.
-  destruct (ot <? thd (last (sr k))) eqn:Eo; [discriminate|]. apply Z.ltb_ge in Eo.
-  exists c. split; [reflexivity|].
-  assert (Hc : In c (cands (sr k))) by (unfold cands; rewrite Ec; left; reflexivity).
-  pose proof (later_candidates_are_later s j t m s' R Hb evs l Hrun sr Hin k d c Hd Hc) as T.
-  destruct Gr as ([[HSr _] HID] & _ & _). rewrite (HID k c Epc Ec) in Eo.
-  assert (Lc : length c = depth st k) by (apply (HSr k); exact Hc).
-  unfold out_time. destruct (ot =? thd c) eqn:Eq; [exact T|]. apply Z.eqb_neq in Eq.
-  eapply tlt_tle_trans'; [exact T|]. apply act_mono; [rewrite Lc; symmetry; apply length_world; apply (ok_depth st OK)|].
-  apply world_time_gt; [apply (ok_depth st OK)|exact Lc|lia].
+  eapply later_outputs_good; eauto. apply reached_good; assumption. eapply nth_error_In; eauto.
 Qed.
 End L.
